@@ -461,7 +461,7 @@ func (this *BlockCompressor) Compress() (int, uint64) {
 		if fi.IsDir() {
 			inputIsDir = true
 
-			if len(formattedInName) > 1 && formattedInName[len(formattedInName)-1] == '.' {
+			if len(formattedInName) > 1 && formattedInName[len(formattedInName)-1] == '.' && formattedInName[len(formattedInName)-2] == os.PathSeparator {
 				formattedInName = formattedInName[0 : len(formattedInName)-1]
 			}
 
